@@ -496,6 +496,141 @@ def r2b_flag_arguments(ctx, prog):
                 r.ok(g['qname'], site, canon(a), file=g['file'], line=c['l'])
 
 
+def r7_default_privacy(ctx, prog, rule_id='C06.R7'):
+    """When the template has no CKA_PRIVATE, two places decide the privacy of the new object on their own: extractObjectInformation (the flag the access check and the encryption of the
+    attribute values use) and the P11 object classes (the CKA_PRIVATE that is stored).  They must give the same default for every object class."""
+    r = ctx.rule(rule_id, 'the privacy default used for checking/encrypting equals the privacy default that is stored, per object class', floor=6, engine='E2 finite-domain evaluation + E7 sibling agreement')
+    # stored default: P11AttrPrivate::setDefault, overridden by the init() functions that set CKA_PRIVATE themselves when it is absent
+    sd = prog.fn('P11AttrPrivate::setDefault')
+    ctx.analysed(sd)
+    lits = [x for n in walk(sd['body']) if n.get('k') == 'Ctor' and 'OSAttribute' in n.get('type', '') for x in walk(n) if x.get('k') == 'Lit']
+    if len(lits) != 1:
+        r.undecided(sd['qname'], 'stored default', 'cannot read the default value', file=sd['file'], line=sd['line'])
+        return
+    base_default = bool(lits[0]['v'])
+    override = {}
+    for g in prog.functions.values():
+        if not (g.get('class') or '').startswith('P11') or short(g['qname']) != 'init':
+            continue
+        decls = {d['var']['name']: d['init'] for n in walk(g['body']) if n.get('k') == 'Decl' for d in n['decls'] if d.get('init')}
+        sets = [c for c in calls(g['body'], short='setAttribute') if len(c.get('args', [])) >= 2 and canon(c['args'][0]) == 'CKA_PRIVATE']
+        if not sets:
+            continue
+        ctx.analysed(g)
+        cls = [x['m'] for c in calls(g['body'], short='setAttribute') if canon(c['args'][0]) == 'CKA_CLASS' for a in [c['args'][1]]
+               for i in [decls.get(canon(a)) if a.get('k') == 'Var' else a] if i for x in walk(i) if x.get('k') == 'Lit' and str(x.get('m', '')).startswith('CKO_')]
+        vals = [x['v'] for c in sets for a in [c['args'][1]] for i in [decls.get(canon(a)) if a.get('k') == 'Var' else a] if i for x in walk(i) if x.get('k') == 'Lit']
+        if len(set(cls)) != 1 or len(set(vals)) != 1:
+            r.undecided(g['qname'], 'stored default', 'sets CKA_PRIVATE but class/value not readable (%s / %s)' % (cls, vals), file=g['file'], line=g['line'])
+            continue
+        override[cls[0]] = bool(vals[0])
+    f = prog.fn('extractObjectInformation')
+    ctx.analysed(f)
+    pt, pc = param_name(f, 0), param_name(f, 1)
+    flag = param_name(f, 6)
+    classes = sorted(k for k in macros(prog) if re.fullmatch(r'CKO_(DATA|CERTIFICATE|PUBLIC_KEY|PRIVATE_KEY|SECRET_KEY|DOMAIN_PARAMETERS)', k))
+    if len(classes) < 6:
+        r.undecided(f['qname'], 'classes', 'object class constants not all found: %s' % classes, file=f['file'], line=f['line'])
+    for c in classes:
+        second = 'CKA_CERTIFICATE_TYPE' if c == 'CKO_CERTIFICATE' else 'CKA_KEY_TYPE'
+        cenv = {pc: 2, '#concrete-loops': 1, param_name(f, 7): 0,
+                re.compile(r'%s\[0\]\.type' % pt): macro(prog, 'CKA_CLASS'), re.compile(r'%s\[0\]\.ulValueLen' % pt): 8, re.compile(r'\*%s\[0\]\.pValue' % pt): macro(prog, c),
+                re.compile(r'%s\[1\]\.type' % pt): macro(prog, second), re.compile(r'%s\[1\]\.ulValueLen' % pt): 8, re.compile(r'\*%s\[1\]\.pValue' % pt): 0}
+        o = Outcomes(f, prog, cenv=cenv, record_calls=set())
+        o.CAP = 64
+        o.LOOP_ROUNDS = 3
+        o.go()
+        r.paths += len(o.outcomes)
+        okp = [oc for oc in o.outcomes if may_succeed(oc)]
+        site = 'class %s, no CKA_PRIVATE in the template' % c
+        want = override.get(c, base_default)
+        if not okp:
+            r.undecided(f['qname'], site, 'no accepting path', file=f['file'], line=f['line'])
+            continue
+        bad = None
+        for oc in okp:
+            w = [e for e in oc['events'] if e[0] == 'write' and e[1] == flag]
+            if w and not re.fullmatch(r'\d+|CK_TRUE|CK_FALSE', str(w[-1][2])):
+                bad = ('undecided', oc, w[-1])
+                break
+            got = True if not w else (str(w[-1][2]) not in ('0', 'CK_FALSE'))      # every caller initialises the flag to CK_TRUE before the call
+            if got != want:
+                bad = ('violated', oc, w[-1] if w else None)
+                break
+        if bad and bad[0] == 'undecided':
+            r.undecided(f['qname'], site, 'value written to %s is not concrete: %s' % (flag, bad[2][2]), file=f['file'], line=bad[2][3])
+        elif bad:
+            r.violation(f['qname'], site, 'the object is checked and its attribute values are %s as a %s object, but the CKA_PRIVATE stored for this class defaults to %s: %s'
+                        % ('stored in clear' if want else 'encrypted', 'public' if want else 'private', 'true' if want else 'false',
+                           'a public session can create it and its byte strings are not encrypted although it is private' if want else 'values are encrypted under a key the reader will not use'),
+                        file=f['file'], line=(bad[2][3] if bad[2] else f['line']), path=bad[1]['path'])
+        else:
+            r.ok(f['qname'], site, 'both default to %s' % ('private' if want else 'public'), file=f['file'], line=f['line'])
+    # callers hand in CK_TRUE
+    for g in sorted(prog.functions.values(), key=lambda g: (g['file'], g['line'])):
+        for c in calls(g['body']):
+            if short(c.get('callee')) != 'extractObjectInformation' or len(c.get('args', [])) < 7:
+                continue
+            def init_of(a):
+                v = a.get('name') if a.get('k') == 'Var' else None
+                i = [d['init'] for n in walk(g['body']) if n.get('k') == 'Decl' for d in n['decls'] if d['var']['name'] == v and d.get('init')]
+                return canon(i[0]) if i else (canon(a) if a.get('k') == 'Lit' else None)
+            flag0, impl = init_of(c['args'][6]), init_of(c['args'][7]) if len(c['args']) > 7 else None
+            cv = c['args'][2].get('name') if c['args'][2].get('k') == 'Var' else None
+            cls0 = sorted({x['m'] for n in walk(g['body']) for (a_, b_) in ([(n['a'], n['b'])] if n.get('k') == 'Assign' else [(d['var'], d['init']) for d in n['decls'] if d.get('init')] if n.get('k') == 'Decl' else [])
+                           if a_.get('k') == 'Var' and a_.get('name') == cv for x in walk(b_) if x.get('k') == 'Lit' and str(x.get('m', '')).startswith('CKO_')})
+            site = 'initial value of %s@%d' % (canon(c['args'][6]), c['l'])
+            if impl in ('true', '1'):
+                # the class is fixed by the caller and the template is not required to name it: the initial value is the default
+                wants = {override.get(k, base_default) for k in cls0}
+                if not cls0 or flag0 not in ('CK_TRUE', 'CK_FALSE', '0', '1'):
+                    r.undecided(g['qname'], site, 'implicit class %s / initial flag %s not readable' % (cls0, flag0), file=g['file'], line=c['l'])
+                elif wants != {flag0 in ('CK_TRUE', '1')}:
+                    r.violation(g['qname'], site, 'objects of class %s are created here with the privacy flag defaulting to %s, while the stored CKA_PRIVATE defaults to %s' % ('/'.join(cls0), flag0, '/'.join('true' if w else 'false' for w in sorted(wants))), file=g['file'], line=c['l'])
+                else:
+                    r.ok(g['qname'], site, '%s for %s (implicit class)' % (flag0, '/'.join(cls0)), file=g['file'], line=c['l'])
+            elif flag0 in ('CK_TRUE', '1'):
+                r.ok(g['qname'], site, 'CK_TRUE', file=g['file'], line=c['l'])
+            else:
+                r.undecided(g['qname'], site, 'the flag handed to extractObjectInformation is not initialised to CK_TRUE at its declaration', file=g['file'], line=c['l'])
+
+
+def r8_reload(ctx, prog):
+    """objectstore.umask (and every other option) is whatever the configuration file read at C_Initialize says; an option the file does not set takes the built-in default (umask 0077).
+    That holds across C_Finalize / C_Initialize only if a reload forgets every value of the previous file: each table the setters fill is emptied before the loader runs."""
+    r = ctx.rule('C06.R8', 'a configuration reload forgets every value of the previous configuration before loading', floor=3, engine='E3 must-pass-through')
+    tables_ = {}
+    for g in prog.functions.values():
+        if g.get('class') == 'Configuration' and re.fullmatch(r'set[A-Z]\w*', short(g['qname'])):
+            ctx.analysed(g)
+            for n in walk(g['body']):
+                if n.get('k') == 'Call' and (n.get('callee') or '').endswith('operator[]') and (n.get('recv') or {}).get('k') == 'Member' and n['recv']['base'].get('k') == 'This':
+                    tables_.setdefault(n['recv']['field'], g['qname'])
+    f = [g for g in prog.functions.values() if g['qname'] == 'Configuration::reload' and not g['params']]
+    if not f or not tables_:
+        r.undecided('Configuration::reload', 'tables', 'anchor not found (reload(): %d, setter tables: %d)' % (len(f), len(tables_)), file='', line=0)
+        return
+    f = f[0]
+    ctx.analysed(f)
+    o = Outcomes(f, prog, cenv={}, record_calls={'clear', 'loadConfiguration'}).go()
+    r.paths += len(o.outcomes)
+    loading = [oc for oc in o.outcomes if any(e[1] == 'loadConfiguration' for e in oc['events'])]
+    if not loading:
+        r.undecided(f['qname'], 'tables', 'no path reaches the loader', file=f['file'], line=f['line'])
+    for t, setter in sorted(tables_.items()):
+        bad = None
+        for oc in loading:
+            i = [k for k, e in enumerate(oc['events']) if e[1] == 'loadConfiguration'][0]
+            if not any(e[1] == 'clear' and e[2] and e[2][0] == t for e in oc['events'][:i]):
+                bad = oc
+                break
+        if bad:
+            r.violation(f['qname'], t, 'the table %s (filled by %s) is not emptied before the configuration is loaded again: an option of the previous file that the new file does not set - objectstore.umask, for one - stays in force instead of its default'
+                        % (t, setter), file=f['file'], line=bad['line'], path=bad['path'])
+        else:
+            r.ok(f['qname'], t, 'cleared before loadConfiguration', file=f['file'], line=f['line'])
+
+
 def run(ctx):
     prog = ctx.prog('ossl-file')
     r1_diamond(ctx, prog)
@@ -505,9 +640,13 @@ def run(ctx):
     r5_umask(ctx, prog)
     r6_read_diamond(ctx, prog)
     r2b_flag_arguments(ctx, prog)
+    r7_default_privacy(ctx, prog)
+    r8_reload(ctx, prog)
 
 
 MUTANTS = [
+    dict(name='generated-public-key-flag-defaults-private', rule='C06.R7', file='src/lib/SoftHSM.cpp', after='CK_RV SoftHSM::C_GenerateKeyPair',
+         old='CK_BBOOL ispublicKeyPrivate = CK_FALSE;', new='CK_BBOOL ispublicKeyPrivate = CK_TRUE;'),
     dict(name='unwrap-ec-key-stored-with-unwrapping-keys-flag', rule='C06.R2b', file='src/lib/SoftHSM.cpp', after='CK_RV SoftHSM::C_UnwrapKey',
          old='setECPrivateKey(osobject, keydata, token, isPrivate != CK_FALSE);', new='setECPrivateKey(osobject, keydata, token, isUnwrapKeyPrivate != CK_FALSE);'),
     dict(name='digestkey-session-private-not-decrypted', rule='C06.R6', file='src/lib/SoftHSM.cpp', after='CK_RV SoftHSM::C_DigestKey',
